@@ -113,6 +113,90 @@ Definition rtx_unwrap (ppt pssrc : N) (b : list N) (i : N) : result (option rtx_
   Ok (Some o).
 
 (* ------------------------------------------------------------------------ *)
+(* Histories.  The unwrap asks the TrackRemote for the primary stream's
+   payload type and SSRC for EVERY repair packet; the payload type moves when
+   the application reads a primary packet with another payload type
+   (track_remote.go):
+
+     func (t *TrackRemote) checkAndUpdateTrack(b []byte) error {
+       if len(b) < 2 { return errRTPTooShort }
+       payloadType := PayloadType(b[1] & rtpPayloadTypeBitmask)
+       if payloadType != t.PayloadType() || len(t.params.Codecs) == 0 {
+         params, err := t.receiver.api.mediaEngine.getRTPParametersByPayloadType(payloadType)
+         if err != nil { return err }
+         t.kind = ...; t.payloadType = payloadType; t.codec = params.Codecs[0]; t.params = params
+       }
+       return nil }
+
+   One event = one packet arriving and being read through TrackRemote.Read:
+   a primary packet (buffer, count; read() copies it out and calls
+   checkAndUpdateTrack on the application's buffer) or a repair packet
+   (pooled buffer, count; unwrapped by the repair goroutine with the track's
+   payload type and SSRC of that moment).  The SSRC of an SSRC-signalled track
+   never changes. *)
+
+Record rtx_state := mkRtxState {
+  st_pt : N;          (* TrackRemote.payloadType; 0 on a fresh track *)
+  st_ssrc : N;        (* TrackRemote.ssrc *)
+  st_params : bool    (* len(t.params.Codecs) != 0 *)
+}.
+
+Inductive rtx_event : Type :=
+| EvPrimary (b : list N) (n : N)
+| EvRtx (b : list N) (i : N).
+
+Inductive rtx_obs : Type :=
+| ObsPrimary (pkt : list N) (ok : bool)          (* b[:n]; checkAndUpdateTrack returned nil *)
+| ObsRtx (r : result (option rtx_out)).
+
+Section History.
+(* mediaEngine.getRTPParametersByPayloadType succeeds for this payload type *)
+Variable known : N -> bool.
+
+Definition check_and_update (st : rtx_state) (b : list N) : rtx_state * bool :=
+  match idx b 1 with
+  | None => (st, false)                                         (* len(b) < 2 *)
+  | Some b1 =>
+      let p := N.land b1 127 in
+      if negb (p =? st_pt st) || negb (st_params st)
+      then if known p then (mkRtxState p (st_ssrc st) true, true) else (st, false)
+      else (st, true)
+  end.
+
+Definition rtx_step (st : rtx_state) (e : rtx_event) : rtx_state * rtx_obs :=
+  match e with
+  | EvPrimary b n =>
+      (* read() hands back the count n and checkAndUpdateTrack looks at the
+         application's buffer; the bytes the application then takes are b[:n] *)
+      let (st', ok) := check_and_update st b in (st', ObsPrimary (firstn (N.to_nat n) b) ok)
+  | EvRtx b i => (st, ObsRtx (rtx_unwrap (st_pt st) (st_ssrc st) b i))
+  end.
+
+Fixpoint rtx_history (st : rtx_state) (evs : list rtx_event) : list rtx_obs :=
+  match evs with
+  | [] => []
+  | e :: t => let (st', o) := rtx_step st e in o :: rtx_history st' t
+  end.
+
+Definition rtx_state_after (st : rtx_state) (evs : list rtx_event) : rtx_state :=
+  fold_left (fun s e => fst (rtx_step s e)) evs st.
+
+(* specification: the primary stream's current payload type after a history is
+   that of the last primary packet whose payload type the media engine knows;
+   before any such packet, the initial one *)
+Fixpoint current_pt (pt0 : N) (evs : list rtx_event) : N :=
+  match evs with
+  | [] => pt0
+  | EvPrimary b _ :: t =>
+      current_pt (match idx b 1 with
+                  | Some b1 => if known (N.land b1 127) then N.land b1 127 else pt0
+                  | None => pt0
+                  end) t
+  | EvRtx _ _ :: t => current_pt pt0 t
+  end.
+End History.
+
+(* ------------------------------------------------------------------------ *)
 (* Specification side: RFC 3550 packet layout and the RFC 4588 rewrite.      *)
 
 Definition bN (b : bool) : N := if b then 1 else 0.
